@@ -35,6 +35,27 @@ macro_rules! cmp_block {
     }};
 }
 
+/// A value compared with ITSELF through references to the same object (an identity shortcut in a comparison
+/// would only show here: every other request compares two separately constructed values).
+#[macro_export]
+macro_rules! self_block {
+    ($a:expr) => {{
+        let a = $a;
+        let r = &a;
+        #[allow(clippy::eq_op)]
+        let v = json!({
+            "eq": guard(|| json!(r == r)),
+            "ne": guard(|| json!(r != r)),
+            "lt": guard(|| json!(r < r)),
+            "le": guard(|| json!(r <= r)),
+            "gt": guard(|| json!(r > r)),
+            "ge": guard(|| json!(r >= r)),
+            "pc": guard(|| ord_str(PartialOrd::partial_cmp(r, r))),
+        });
+        v
+    }};
+}
+
 /// Operations every kind of type supports.
 #[macro_export]
 macro_rules! common_ops {
@@ -161,7 +182,7 @@ macro_rules! ref_type {
                     let y = amt(req, "y");
                     let a = <$Q as Quantity>::new(x, unit_at!($Q, req, "u"));
                     let b = <$Q as Quantity>::new(y, unit_at!($Q, req, "v"));
-                    json!({"ab": cmp_block!(a, b), "ba": cmp_block!(b, a), "nat": cmp_block!(x, y)})
+                    json!({"ab": cmp_block!(a, b), "ba": cmp_block!(b, a), "nat": cmp_block!(x, y), "aa": self_block!(a), "nat_aa": self_block!(x)})
                 }
                 "arith" => {
                     let x = amt(req, "x");
@@ -214,7 +235,7 @@ macro_rules! noref_type {
                     let y = amt(req, "y");
                     let a = <$Q as Quantity>::new(x, unit_at!($Q, req, "u"));
                     let b = <$Q as Quantity>::new(y, unit_at!($Q, req, "v"));
-                    json!({"ab": cmp_block!(a, b), "ba": cmp_block!(b, a), "nat": cmp_block!(x, y)})
+                    json!({"ab": cmp_block!(a, b), "ba": cmp_block!(b, a), "nat": cmp_block!(x, y), "aa": self_block!(a), "nat_aa": self_block!(x)})
                 }
                 "arith" => {
                     let x = amt(req, "x");
